@@ -142,8 +142,7 @@ def count(key, k=1):
 
 
 def stat(name, ratio):
-    if ratio > STATS.get(name, 0.0):
-        STATS[name] = float(ratio)
+    STATS[name] = max(STATS.get(name, 0.0), float(ratio))
 
 
 # --------------------------------------------------------------------------
@@ -718,9 +717,15 @@ def es_iteration(case, es, shadow, op, where, kind, dt, tol, dim, batch, lb, ub,
     if msg:
         return fail("corr", where, "recorded draws: " + msg)
     # ---- tell
-    perm = list(op["perm"])
+    if op.get("perm") is not None:
+        perm = [int(i) for i in op["perm"]]
+    else:
+        # ranking by a linear objective along a fixed direction (drives the evolution paths one way)
+        perm = [int(i) for i in np.argsort(-(sols.astype(np.float64) @ np.array(op["dir"], dtype=np.float64)),
+                                           kind="stable")]
+        count(f"{kind}:directional-rankings")
     mu = int(op["mu"])
-    if len(perm) != batch or mu > batch:
+    if sorted(perm) != list(range(batch)) or mu > batch:
         raise Stop("malformed-op")
     twin = copy.deepcopy(es)
     valsA, valsB = perm_vals(case, op, batch, 0), perm_vals(case, op, batch, 1)
@@ -1198,8 +1203,11 @@ def gen_bounds(rng, dim, x0, sigma0, layout):
     return lb, ub
 
 
-def gen_perm_ops(rng, batch, n_iter, dim, x0_mag, mu_max=None, reset_p=0.06):
+def gen_perm_ops(rng, batch, n_iter, dim, x0_mag, mu_max=None, reset_p=0.06, directional=False):
     ops = []
+    direction = [rng.choice([-1.0, -0.5, 0.0, 0.5, 1.0, 2.0]) for _ in range(dim)]
+    if not any(direction):
+        direction[0] = 1.0
     for _ in range(n_iter):
         if ops and rng.random() < reset_p:
             ops.append({"op": "reset", "x0": [dyadic(rng, -x0_mag, x0_mag, 8) for _ in range(dim)]})
@@ -1218,7 +1226,11 @@ def gen_perm_ops(rng, batch, n_iter, dim, x0_mag, mu_max=None, reset_p=0.06):
             mu = top
         else:
             mu = rng.randint(0, top)
-        ops.append({"op": "iter", "perm": perm, "mu": mu, "vseed": rng.randrange(1 << 30)})
+        if directional and rng.random() < 0.85:
+            ops.append({"op": "iter", "perm": None, "dir": direction, "mu": max(mu, 1),
+                        "vseed": rng.randrange(1 << 30)})
+        else:
+            ops.append({"op": "iter", "perm": perm, "mu": mu, "vseed": rng.randrange(1 << 30)})
     return ops
 
 
@@ -1242,7 +1254,7 @@ def gen_es(kind, mirror=False, quick=True):
         n_iter = rng.randint(3, 15) if quick else rng.randint(5, 60)
         case = {"kind": kind, "dim": dim, "batch": batch, "dtype": dtype, "seed": rng.randrange(1 << 31),
                 "sigma0": sigma0, "x0": x0, "lb": lb, "ub": ub, "layout": layout,
-                "ops": gen_perm_ops(rng, batch, n_iter, dim, 2)}
+                "ops": gen_perm_ops(rng, batch, n_iter, dim, 2, directional=rng.random() < 0.3)}
         if not quick and layout == "box" and rng.random() < 0.15:
             # scalar bounds (0-d arrays inside the optimizer)
             case["scalar_bounds"] = True
@@ -1315,7 +1327,7 @@ def gen_pycma(quick=True):
 
 def nontrivial_es(case):
     for op in case["ops"]:
-        if op["op"] == "iter" and op["mu"] >= 2 and op["perm"] != sorted(op["perm"]):
+        if op["op"] == "iter" and op["mu"] >= 2 and (op.get("perm") is None or op["perm"] != sorted(op["perm"])):
             return True
     return False
 
